@@ -62,6 +62,8 @@ func main() {
 		h.runFSDiff(*seed, *cases, *nops)
 	case "golden":
 		h.runGolden(*goldenDir)
+	case "bigvalue":
+		h.runBigValue()
 	default:
 		log.Fatalf("unknown stream %q", *stream)
 	}
